@@ -279,7 +279,7 @@ def _worker(args):
     try:
         test()
     except Exception:
-        w['harness_errors'].append('shard %d: %s' % (shard, traceback.format_exc()[-1500:]))
+        w['harness_errors'].append('shard %d: %s' % (shard, traceback.format_exc().split('Failing test case')[0][-1200:]))
     return w
 
 
